@@ -132,7 +132,8 @@ class SeqCache(evx.System):
     strat = self.p['strategy']
     if ev[0] == 'store':
       _, m, ts = ev
-      v = float(self.n)
+      # every other value is 0.0: a stored datapoint whose value is falsy is a datapoint all the same
+      v = float(self.n) if self.n % 2 == 0 else 0.0
       before = self.overflow
       from carbon import instrumentation as _instr
       counted0 = _instr.stats.get('cache.overflow', 0)
@@ -267,7 +268,11 @@ class SeqCache(evx.System):
   def canon(self):
     c = self.cache
     from carbon import state
-    shape = tuple(sorted((m, tuple(sorted(v))) for m, v in dict.items(c)))
+    # (which of the stored values are zero is part of the state: the alphabet has the value 0.0 in it)
+    if tuple(self.oracles) == ('c02',):
+      shape = tuple(sorted((m, tuple(sorted((t, x == 0) for t, x in v.items()))) for m, v in dict.items(c)))
+    else:
+      shape = tuple(sorted((m, tuple(sorted(v))) for m, v in dict.items(c)))
     try:
       priv = deepcanon({k: v for k, v in vars(c.strategy).items() if k != 'cache'}) if c.strategy else None
     except Exception:   # noqa
